@@ -42,6 +42,9 @@ func c03Gen(r *rand.Rand, tier string) []spec.Case {
 		for _, ms := range []int{0, 200} {
 			add(proto, "sync-writer-drained-after-kill", "kill", ms)
 		}
+		for _, ms := range []int{100, 600} {
+			add(proto, "plugin-dial-parked", "kill", ms)
+		}
 		if proto != "netrpc" {
 			add(proto, "stream", "kill", 0)
 			for _, ms := range []int{0, 300} {
@@ -143,7 +146,7 @@ func c03Judge(c spec.Case, evs []spec.Event, d *Death) CaseResult {
 		switch cl.Phase {
 		case "inflight":
 			switch cl.Op {
-			case "Dispense", "BrokerDial", "Call(sigkill)", "Call(exit)", "Call(sleep)", "Stream", "plugin:mux-accept", "plugin:grpc-dial", "plugin:write":
+			case "Dispense", "BrokerDial", "Call(sigkill)", "Call(exit)", "Call(sleep)", "Stream", "plugin:mux-accept", "plugin:mux-dial", "plugin:grpc-dial", "plugin:write":
 				return true
 			case "BrokerAccept":
 				return p.Proto == "netrpc"
@@ -212,7 +215,7 @@ func init() {
 				r.Inconcl = append(r.Inconcl, fmt.Sprintf("too few post-death calls observed: %v", r.Counters))
 			}
 		},
-		Rule: "enumerated crash points x protocol (net/rpc, gRPC, gRPC+mux) x host operation in flight, against real plugin subprocesses: (a) hook points inside go-plugin on the plugin side armed to SIGKILL or os.Exit(3) on first hit (serve.cookieOK, serve.listenerReady, serve.lineWritten, serve.serving, rpcserver.dispense.reserved, mux.accept.gotConn, grpcbroker.accept.listening, grpcbroker.knock.sent, grpcstdio.chunkRead); (b) points in the scripted plugin (handshake line cut at every boundary / mid-field offset, inside a unary handler by SIGKILL and by exit, a slow unary call, a stream after 3 messages, after a broker id was issued but before accept, with a host-side broker Accept in flight, with a host-side broker message (listener address / knock) between the host's stream goroutine and the wire: host-side hook grpcbroker.stream.sending; with the host's SyncStdout writer blocked mid-Write (a pipe the host only drains after Kill returned)); (c) external SIGKILL while idle and at seeded instants during a continuous mix of Ping/call/Dispense/large-response traffic. After the death a fixed battery of subsequent calls runs. Every call is recorded with phase, return, error; Exited() and the gRPC client context are polled. Class = protocol|scenario|death",
+		Rule: "enumerated crash points x protocol (net/rpc, gRPC, gRPC+mux) x host operation in flight, against real plugin subprocesses: (a) hook points inside go-plugin on the plugin side armed to SIGKILL or os.Exit(3) on first hit (serve.cookieOK, serve.listenerReady, serve.lineWritten, serve.serving, rpcserver.dispense.reserved, mux.accept.gotConn, grpcbroker.accept.listening, grpcbroker.knock.sent, grpcstdio.chunkRead); (b) points in the scripted plugin (handshake line cut at every boundary / mid-field offset, inside a unary handler by SIGKILL and by exit, a slow unary call, a stream after 3 messages, after a broker id was issued but before accept, with a host-side broker Accept in flight, with a stream the plugin dialled parked unaccepted in the host's broker, with a host-side broker message (listener address / knock) between the host's stream goroutine and the wire: host-side hook grpcbroker.stream.sending; with the host's SyncStdout writer blocked mid-Write (a pipe the host only drains after Kill returned)); (c) external SIGKILL while idle and at seeded instants during a continuous mix of Ping/call/Dispense/large-response traffic. After the death a fixed battery of subsequent calls runs. Every call is recorded with phase, return, error; Exited() and the gRPC client context are polled. Class = protocol|scenario|death",
 		Assumptions: []string{
 			"nominal bounds <= 6 s (5 s broker windows, StartTimeout 3 s); a call counts as hung after 24 s",
 			"'needed the plugin' table: in-flight Dispense / broker dial / plugin-side broker ops / unary calls / stream, and subsequent Ping, call on a dispensed client, net/rpc Dispense, broker dial, MuxBroker accept must return errors; gRPC Client()/Dispense are lazy and only have to return; Start/Client after the death only have to return",
